@@ -1021,8 +1021,8 @@ Proof.
       * intros k Hk Hn. destruct (C1 k Hk Hn) as [?|(? & _)]; auto.
       * apply upd_length.
       * intros k Hk. rewrite getj_set_cpc, getj_set_mt. rewrite getj_set_job_neq by auto. reflexivity.
-      * rewrite getj_set_cpc, getj_set_mt. rewrite getj_set_job_eq by exact Hkl. destruct (_ || _); cbn; exact Hid.
-      * left. split; [reflexivity|]. rewrite getj_set_cpc, getj_set_mt. rewrite getj_set_job_eq by exact Hkl. destruct (_ || _); cbn; exact Pd.
+      * rewrite getj_set_cpc, getj_set_mt. rewrite getj_set_job_eq by exact Hkl. destruct (negb _); cbn; exact Hid.
+      * left. split; [reflexivity|]. rewrite getj_set_cpc, getj_set_mt. rewrite getj_set_job_eq by exact Hkl. destruct (negb _); cbn; exact Pd.
     + destruct F as (F1 & F2). split; cbn; auto; intros X; congruence.
   - (* CTryAdd : POOL_tryAdd *)
     pose proof (PA eq_refl) as PS. destruct (PC eq_refl) as (C1 & _).
